@@ -15,7 +15,7 @@ Import ListNotations.
 Open Scope Z_scope.
 
 Inductive hitem :=
-| HVideo (c : cframe)                     (* a forwarded NAL unit *)
+| HVideo (af : aframe)                    (* a forwarded NAL unit with the parameter sets current at its time *)
 | HAudio (pts : Z) (g : list cframe).     (* an audio group flushed as one PES at [pts] (90 kHz) *)
 
 Definition hplan := list (list hitem).    (* segments, each a list of items in writing order *)
@@ -38,19 +38,20 @@ Definition video_frame (sps pps : bytes) (c : cframe) (t : Z) : tsframe :=
      f_dts := to_90k (c_dts c); f_pts := to_90k (c_pts c);
      f_hdr := prepare_avc_header sps pps t; f_pay := c_pay c; f_key := t =? 5 |}.
 
-Definition item_frame (sps pps : bytes) (a : asc) (it : hitem) : tsframe :=
+Definition item_frame (a : asc) (it : hitem) : tsframe :=
   match it with
-  | HVideo c => video_frame sps pps c (match nal_type (c_pay c) with Some t => t | None => 0 end)
+  | HVideo af => video_frame (a_sps af) (a_pps af) (a_c af)
+                   (match nal_type (c_pay (a_c af)) with Some t => t | None => 0 end)
   | HAudio pts g => group_frame a pts g
   end.
 
-Definition hls_model (sps pps : bytes) (a : asc) (plan : hplan) : list bytes :=
-  map (fun seg => ts_write_all (map (item_frame sps pps a) seg)) plan.
+Definition hls_model (a : asc) (plan : hplan) : list bytes :=
+  map (fun seg => ts_write_all (map (item_frame a) seg)) plan.
 
 (* the source frames a plan carries, per medium, in order *)
-Definition item_videos (it : hitem) : list cframe := match it with HVideo c => [c] | HAudio _ _ => [] end.
+Definition item_videos (it : hitem) : list aframe := match it with HVideo af => [af] | HAudio _ _ => [] end.
 Definition item_audios (it : hitem) : list cframe := match it with HVideo _ => [] | HAudio _ g => g end.
-Definition plan_videos (plan : hplan) : list cframe := flat_map item_videos (concat plan).
+Definition plan_videos (plan : hplan) : list aframe := flat_map item_videos (concat plan).
 Definition plan_audios (plan : hplan) : list cframe := flat_map item_audios (concat plan).
 
 (* ---------------- oracle ---------------- *)
@@ -102,31 +103,31 @@ Definition audio_unit_take (a : asc) (u : tsunit) (auds : list cframe) : option 
   | None => None
   end.
 
-Definition hls_video_unit_ok (sps pps : bytes) (a : asc) (c : cframe) (u : tsunit) : bool :=
-  c_video c && src_unit_ok sps pps a c u.
+Definition hls_video_unit_ok (a : asc) (af : aframe) (u : tsunit) : bool :=
+  c_video (a_c af) && asrc_unit_ok a af u.
 
-Fixpoint hls_walk (sps pps : bytes) (a : asc) (us : list tsunit) (vids auds : list cframe) : bool :=
+Fixpoint hls_walk (a : asc) (us : list tsunit) (vids : list aframe) (auds : list cframe) : bool :=
   match us with
   | [] => match vids, auds with [], [] => true | _, _ => false end
   | u :: us' =>
       if u_pid u =? TS_VIDEO_PID then
         match vids with
-        | c :: vids' => hls_video_unit_ok sps pps a c u && hls_walk sps pps a us' vids' auds
+        | af :: vids' => hls_video_unit_ok a af u && hls_walk a us' vids' auds
         | [] => false
         end
       else if u_pid u =? TS_AUDIO_PID then
         match audio_unit_take a u auds with
-        | Some auds' => hls_walk sps pps a us' vids auds'
+        | Some auds' => hls_walk a us' vids auds'
         | None => false
         end
       else false
   end.
 
-(* [vids]: the source NAL units that are carried, [auds]: the source AAC frames with data,
+(* [vids]: the source NAL units that are carried, each with the SPS/PPS current when it was pushed, [auds]: the source AAC frames with data,
    both in source order; [segs]: the bytes of the segments in order *)
-Definition ok_hls (sps pps : bytes) (a : asc) (vids auds : list cframe) (segs : list bytes) : bool :=
+Definition ok_hls (a : asc) (vids : list aframe) (auds : list cframe) (segs : list bytes) : bool :=
   match collect_units segs with
-  | Some us => hls_walk sps pps a us vids auds
+  | Some us => hls_walk a us vids auds
   | None => false
   end.
 
@@ -138,7 +139,7 @@ Definition wf_haudio (c : cframe) : bool :=
   match c_pay c with [] => false | _ => zlen (c_pay c) + 7 <? 8192 end.
 Definition wf_hitem (it : hitem) : bool :=
   match it with
-  | HVideo c => wf_hvideo c
+  | HVideo af => wf_hvideo (a_c af)
   | HAudio pts g =>
       match g with
       | [] => false
@@ -148,3 +149,26 @@ Definition wf_hitem (it : hitem) : bool :=
   end.
 Definition wf_hplan (a : asc) (plan : hplan) : bool :=
   asc_plain a && forallb (forallb wf_hitem) plan.
+
+(* ---- elementary-stream-only variant for the end-to-end stream (media.NewStream fed with
+   RTP): time stamps come from the wall clock there, so only structure is demanded: every
+   unit is video, RAI (and a PCR) exactly on key frames, PES payload = AUD, the in-band
+   SPS/PPS current at that time on key frames, start code, the source NAL unit *)
+Definition es_video_unit_ok (af : aframe) (u : tsunit) : bool :=
+  match nal_type (c_pay (a_c af)) with
+  | Some t =>
+      (u_pid u =? TS_VIDEO_PID) && Bool.eqb (u_rai u) (t =? 5) &&
+      (if t =? 5 then match u_pcr u with Some _ => true | None => false end else true) &&
+      match parse_pes (u_data u) with
+      | Some p => (p_sid p =? TS_VIDEO_AVC) &&
+                  bytes_eqb (p_payload p) (spec_video_es (a_sps af) (a_pps af) (c_pay (a_c af)) t)
+      | None => false
+      end
+  | None => false
+  end.
+
+Definition ok_hls_es (vids : list aframe) (segs : list bytes) : bool :=
+  match collect_units segs with
+  | Some us => units_ok es_video_unit_ok vids us
+  | None => false
+  end.
